@@ -286,8 +286,9 @@ def joinSlash : List Str → Str
   | [a] => a
   | a :: rest => a ++ '/' :: joinSlash rest
 
-/-- whitespace `str.split()` is only used to count parts when there are no groups; names never contain
-    whitespace in the model's domain, so the count is 1 for a non-empty name -/
+/-- `_parts(name, split_by)` (fix dc417f9): split at `/` when the document has groups, otherwise one part.
+    (For the empty string without groups the Python gives `[""]`, one part; the model gives no part — names are
+    non-empty in every theorem and in the generators.) -/
 def splitParts (groups : Bool) (s : Str) : List Str :=
   if groups then splitOnChar '/' s else (if s = [] then [] else [s])
 
@@ -301,7 +302,11 @@ def mkRecord (groups : Bool) (nd : List (Str × Int)) (key : Str) (v : VarEntry)
   let (vname, path) :=
     if parts.length > 1 then (parts.getLast?.getD [], some (joinSlash parts.dropLast)) else (key, none)
   let fqDims := dims.map fun d => if (splitParts groups d).length = 1 then '/' :: d else d
-  pure ⟨key, vname, path, dtype, fqDims, shape, getMaps e, dictOfLog attrs⟩
+  -- `variable["attributes"]["path"] = path` (members of groups) and `createVariable(Maps=…)` write pydap's own
+  -- entries into the same dict: a declared attribute named `path` (in a group) or `Maps` is overwritten.  The
+  -- record reports those two entries as `path` / `maps`; `attrs` is the rest of the dict.
+  let own := fun (kv : Str × AttrVal) => kv.1 = "Maps".toList ∨ (path.isSome ∧ kv.1 = "path".toList)
+  pure ⟨key, vname, path, dtype, fqDims, shape, getMaps e, (dictOfLog attrs).filter fun kv => !decide (own kv)⟩
 
 /-- the `variables` dict of `dmr_to_dataset` after the bootstrap loops, in iteration order
     (= the order in which the DMR declares the variables) -/
